@@ -933,12 +933,18 @@ class PeerGetDirectoryContentCommand(BaseCommand[PeerDirectoryContentsReply.Requ
         self._ticket: Optional[int] = None
 
     async def send(self, client: SoulSeekClient):
-        self._ticket = next(client.ticket_generator)
+        # The ticket is chosen when the expected response is built (`execute`
+        # does that before sending), only choose one here if that didn't happen
+        ticket = self._ticket if self._ticket is not None else next(client.ticket_generator)
+        self._ticket = None
         await client.network.send_peer_messages(
-            self.username, PeerDirectoryContentsRequest.Request(self._ticket, self.directory)
+            self.username, PeerDirectoryContentsRequest.Request(ticket, self.directory)
         )
 
     def build_expected_response(self, client: SoulSeekClient) -> Optional[ExpectedResponse]:
+        # This method is called before `send`: choose the ticket of the request
+        # here, the reply to expect is the one that carries this ticket
+        self._ticket = next(client.ticket_generator)
         return ExpectedResponse(
             PeerConnection,
             PeerDirectoryContentsReply.Request,
